@@ -318,9 +318,9 @@ def get_interpolated_now_frame(
             before_frame = ground_truth_frame
             dt_before = diff_time
         else:
+            # the first later frame is the following neighbor
             after_frame = ground_truth_frame
             dt_after = -diff_time
-        if before_frame is not None and after_frame is not None:
             break
 
     # disable frame if time difference is too large
